@@ -15,7 +15,7 @@ const rule = "explicitly enumerated program space inside the Go backend's subset
 	"(meth) typed/optional/named/rest parameters, recursion, classes, modules; (coll) list/tuple/map/set/range literals × element kinds × {inspect, length, index, store, append, concat, iterate, map with closure}; " +
 	"(str) interpolation and String methods; (clos) closures capturing and mutating locals; (sel) switch/logical/nil-handling; (catch) do/catch/finally; " +
 	"(err) one program per uncaught-error kind {Int / 0, Int % 0, list index, tuple index, must nil, failed as-cast, thrown symbol} × call depth 0..2 × raising site {assignment, argument, statement} plus class-method/closure/loop frames. " +
-	"(expr) Int expression trees, bounded-exhaustive: every binary tree shape with n operators × every operator assignment over {+, -, *, /, %} × every assignment of leaf kinds {Int literal, literal beyond 64 bits, local, method parameter, loop variable of `for i in 6`, result of an Int-returning call, temporary `(y / 2)` / `(y % 10)`} to the leaves (leaf values depend on kind and position only; trees with a zero divisor are left out by a big-integer model and counted; literal-only subtrees are folded by the compiler and count as literals): in method bodies n = 1 and n = 2 with all seven kinds, n = 3 (the full tree (L op L) op (L op L) and the left and right spines) with {literal, local, temporary}; at the top level (no parameters, pure callee) n = 1 with six kinds and n = 2 with {literal, local, loop variable, temporary} and with {literal, call}. The expressions are packed round-robin into 16 + 16 programs, `v := <expr>` each and one `println(\"#k\", v…)` per 8 of them (every value on its own line), 64 per method; outputs are compared expression by expression, and differing expressions are localised per program to the operator/operand-class pattern (operator, operand classes narrow / big / wide / temp / inline-expr, position, sibling class or parent operator) that most of them share with a precision ≥ 0.7, refinements of one pattern being folded across programs. Thorough tier: adds the literal 2**63-1 as a leaf kind; n = 1 and (over {literal, big literal, local, temporary}) n = 2 also with {&, |, ^}; comparison operators at the root of n = 1 and n = 2 trees; in methods all five shapes of n = 3 over {literal, local, temporary} and the full tree and spines over {literal, local, loop variable, temporary}; n = 2 over all six kinds at the top level (48 + 48 programs). " +
+	"(expr) Int expression trees, bounded-exhaustive: every binary tree shape with n operators × every operator assignment over {+, -, *, /, %} × every assignment of leaf kinds {Int literal, literal beyond 64 bits, local, method parameter, loop variable of `for i in 6`, result of an Int-returning call, temporary `(y / 2)` / `(y % 10)`} to the leaves (leaf values depend on kind and position only; trees with a zero divisor are left out by a big-integer model and counted; literal-only subtrees are folded by the compiler and count as literals): in method bodies n = 1 and n = 2 with all seven kinds, n = 3: the full tree (L op L) op (L op L) with {literal, local, temporary}, the left and right spines with {literal, temporary} and with {local, temporary}; at the top level (no parameters, pure callee) n = 1 with six kinds and n = 2 with {literal, local, loop variable, temporary} and with {literal, call}. The expressions are packed round-robin into 16 + 16 programs, `v := <expr>` each and one `println(\"#k\", v…)` per 8 of them (every value on its own line), 64 per method; outputs are compared expression by expression, and differing expressions are localised per program to the operator/operand-class pattern (operator, operand classes narrow / big / wide / temp / inline-expr; whether an operand needing a temporary is evaluated later or earlier in the enclosing expression; position, sibling class or parent operator) that most of them share with a precision ≥ 0.7, refinements of one pattern being folded across programs. Thorough tier: adds the literal 2**63-1 as a leaf kind; n = 1 and (over {literal, big literal, local, temporary}) n = 2 also with {&, |, ^}; comparison operators at the root of n = 1 and n = 2 trees; in methods all five shapes of n = 3 over {literal, local, temporary} and the full tree and spines over {literal, local, loop variable, temporary}; n = 2 over all six kinds at the top level (48 + 48 programs). " +
 	"Every other item is its own program (a case groups the items of one construct); the thorough tier adds operand pairs (boundary Ints, signed zeros, float division by zero), every raising site of every error kind and depth-3 control-flow nestings (loop × {if, while, for-in} × {println, break, continue, return, labelled break, break-with-value}). " +
 	"Non-trivial = a program that the backend accepted and that was built and executed (a packed expression program counts once; its expressions are counted in expr_trees_compared); rejected/backend-panicking programs are counted separately and are not violations."
 
